@@ -20,16 +20,53 @@ theorem sumTok_append (a b : List (Tok × Nat)) (t : Tok) :
   | cons p a ih => simp [sumTok, ih, Nat.add_assoc]
 
 theorem sumTok_single (tok : Tok) (x : Nat) (t : Tok) :
-    sumTok [(tok, x)] t = if tok = t then x else 0 := by
-  simp [sumTok]
+    sumTok [(tok, x)] t = if t = tok then x else 0 := by
+  by_cases h : t = tok
+  · subst h; simp [sumTok]
+  · have h' : ¬ tok = t := fun e => h e.symm
+    simp [sumTok, h, h']
 
 theorem sumTok_resid (tok : Tok) (r : Nat) (t : Tok) :
-    sumTok (if 0 < r then [(tok, r)] else []) t = if tok = t then r else 0 := by
+    sumTok (if 0 < r then [(tok, r)] else []) t = if t = tok then r else 0 := by
   by_cases h : 0 < r
-  · simp [h, sumTok]
+  · simp only [h, if_true]; exact sumTok_single tok r t
   · have : r = 0 := by omega
     subst this
     simp [sumTok]
+
+/-- crediting a balance, pointwise -/
+theorem upd_add (f : Nat → Nat) (a x t : Nat) :
+    upd f a (f a + x) t = f t + (if t = a then x else 0) := by
+  simp only [upd]
+  split
+  · subst_vars; rfl
+  · rfl
+
+/-- debiting a balance, pointwise -/
+theorem upd_sub (f : Nat → Nat) (a x t : Nat) (h : x ≤ f a) :
+    upd f a (f a - x) t + (if t = a then x else 0) = f t := by
+  simp only [upd]
+  split
+  · subst_vars; omega
+  · rfl
+
+/-- the router's ledger over one hop: forward `amt` of token `a`, get residual `x` of `a` and
+    output `y` of token `b` back -/
+theorem ledger_hop (f : Nat → Nat) (a b x y amt t : Nat) (hle : amt ≤ f a) :
+    upd (upd f a (f a - amt + x)) b (upd f a (f a - amt + x) b + y) t + (if t = a then amt else 0)
+      = f t + (if t = a then x else 0) + (if t = b then y else 0) := by
+  simp only [upd]
+  by_cases h1 : t = a
+  · by_cases h2 : t = b
+    · subst h1; subst h2; simp only [if_true]; omega
+    · subst h1
+      have h3 : ¬ b = t := fun e => h2 e.symm
+      simp only [if_true, h2, h3, if_false]; omega
+  · by_cases h2 : t = b
+    · subst h2
+      have h3 : ¬ t = a := h1
+      simp only [if_true, h3, if_false]; omega
+    · simp only [h1, h2, if_false] <;> omega
 
 /-! ### the chain of hops without any ledger: which responses are received -/
 
@@ -104,11 +141,10 @@ theorem hopLoop_spec {σ : Type} {resp : Resp σ} (hops : List Hop) {l l' : Loop
     · simpa [lastPay] using hlast
     · intro t
       have h1 := hled t
-      simp only [residuals, sumTok_append, sumTok_resid] at h1 ⊢
-      simp only [upd_apply] at h1
-      by_cases ht : t = l.tok <;> by_cases hg : t = g.tokOut <;> by_cases hlg : g.tokOut = l.tok
-      all_goals (simp only [ht, hg, hlg, if_true, if_false, eq_self_iff_true] at h1 ⊢)
-      all_goals (try subst ht) <;> (try subst hg) <;> (try simp_all) <;> omega
+      have h2 := ledger_hop l.rb l.tok g.tokOut r.2.2 r.2.1 l.amt t hb
+      simp only [residuals, sumTok_append, sumTok_resid]
+      dsimp only at h1
+      omega
 
 theorem hopLoop_complete {σ : Type} {resp : Resp σ} (hops : List Hop) {l : Loop σ} {w' : σ}
     {rs : List (Nat × Nat)} (htr : hopTrace resp hops l.w l.tok l.amt = some (w', rs))
@@ -119,15 +155,16 @@ theorem hopLoop_complete {σ : Type} {resp : Resp σ} (hops : List Hop) {l : Loo
     simp only [hopTrace, Option.bind_eq_bind, Option.bind_eq_some_iff, Option.pure_def,
       Option.some.injEq, Prod.mk.injEq] at htr
     obtain ⟨r, hr, t, ht, rfl, rfl⟩ := htr
-    have hs1 : hopStep resp l g = some
-        { w := r.1,
-          rb := upd (upd l.rb l.tok (l.rb l.tok - l.amt + r.2.2)) g.tokOut
-            (upd l.rb l.tok (l.rb l.tok - l.amt + r.2.2) g.tokOut + r.2.1),
-          tok := g.tokOut, amt := r.2.1,
-          acc := if 0 < r.2.2 then l.acc ++ [(l.tok, r.2.2)] else l.acc } := by
-      simp [hopStep, hr, sub?, hle]
-    have := ih (l := _) (rs := t.2) (by simpa using ht) (by simp)
-    obtain ⟨l', hl'⟩ := this
+    let l1 : Loop σ :=
+      { w := r.1,
+        rb := upd (upd l.rb l.tok (l.rb l.tok - l.amt + r.2.2)) g.tokOut
+          (upd l.rb l.tok (l.rb l.tok - l.amt + r.2.2) g.tokOut + r.2.1),
+        tok := g.tokOut, amt := r.2.1,
+        acc := if 0 < r.2.2 then l.acc ++ [(l.tok, r.2.2)] else l.acc }
+    have hs1 : hopStep resp l g = some l1 := by
+      simp [hopStep, hr, sub?, hle, l1]
+    have hle1 : l1.amt ≤ l1.rb l1.tok := by simp [l1]
+    obtain ⟨l', hl'⟩ := ih (l := l1) (rs := t.2) (by simpa [l1] using ht) hle1
     exact ⟨l', by simp [hopLoop, hs1, hl']⟩
 
 /-! ### paying out -/
@@ -203,19 +240,16 @@ theorem multiG_spec {σ : Type} {resp : Resp σ} {w : σ} {rb : Tok → Nat} {cb
   · intro t
     have a := hp1 t
     have b := hled t
-    rw [sumTok_append, sumTok_single] at a
-    rw [← hacc] at b
-    simp only [upd_apply] at b
-    by_cases ht : t = tokIn <;> by_cases hl2 : l.tok = t
-    all_goals (simp only [ht, hl2, if_true, if_false] at a b ⊢)
-    all_goals (try subst ht) <;> (try simp_all) <;> omega
+    rw [sumTok_append, sumTok_single, hacc] at a
+    dsimp only at b
+    rw [upd_add] at b
+    show p.1 t = rb t
+    omega
   · intro t
     have a := hp2 t
-    simp only [upd_apply] at a
-    simp only
-    by_cases ht : t = tokIn
-    · subst ht; simp only [if_true] at a ⊢; omega
-    · simp only [ht, if_false] at a ⊢; omega
+    have b := upd_sub cb tokIn amount t h3
+    dsimp only
+    omega
 
 /-- the router adds no failure of its own: if the payment is valid and every hop answers,
     the endpoint succeeds -/
@@ -231,15 +265,13 @@ theorem multiG_complete {σ : Type} {resp : Resp σ} {w w' : σ} {rb : Tok → N
   have hpay : ∀ t, sumTok (l.acc ++ [(l.tok, l.amt)]) t ≤ l.rb t := by
     intro t
     have b := hled t
-    rw [← hacc] at b
-    simp only [List.nil_append] at b
-    rw [sumTok_append, sumTok_single]
-    simp only [upd_apply] at b
-    by_cases ht : t = tokIn <;> by_cases hl2 : l.tok = t
-    all_goals (simp only [ht, hl2, if_true, if_false] at b ⊢)
-    all_goals (try subst ht) <;> (try simp_all) <;> omega
+    dsimp only at b hacc
+    rw [upd_add] at b
+    rw [sumTok_append, sumTok_single, hacc, List.nil_append]
+    omega
   obtain ⟨p, hp⟩ := payAll_total _ (upd cb tokIn (cb tokIn - amount)) hpay
-  exact ⟨_, by simp [multiG, h1, h2, sub?, h3, hl, hp]⟩
+  exact ⟨{ w := l.w, rb := p.1, cb := p.2, pays := l.acc ++ [(l.tok, l.amt)] },
+    by simp [multiG, req, h1, h2, sub?, h3, hl, hp]⟩
 
 /-- any hop error makes the whole call fail -/
 theorem multiG_none_of_trace_none {σ : Type} {resp : Resp σ} {w : σ} {rb : Tok → Nat}
